@@ -319,6 +319,23 @@ theorem cmpRTest_fresh (g : GState) (op : COp) (e : GExpr) (y eLeft negate : Boo
   have := fresh_prepend g (treeLines e ++ [GLine.ins .STA (some tmp), GLine.ins (if y then .CPY else .CPX) (some tmp)]) _ hp this
   simpa [List.append_assoc] using this
 
+theorem labels_insLines (ops : List (Mn × Option Atom)) : labels (ops.map fun p => GLine.ins p.1 p.2) = [] := by
+  induction ops with
+  | nil => rfl
+  | cons x xs ih => simpa [labels] using ih
+
+theorem wcmpTest_fresh (g : GState) (ne : Bool) (s : String) (w : WA) (negate : Bool) (label : Lbl) :
+    Fresh g (wcmpTest g ne s w negate label) := by
+  unfold wcmpTest
+  split
+  · simp [Fresh, Mono, NewIn, labels_insLines, labels]
+  · refine ⟨?_, ?_⟩
+    · intro c; cases c <;> simp [GState.ctr]
+    · intro l hl
+      simp [labels_insLines, labels] at hl
+      subst hl
+      simp [NewIn, LKind.ctr, GState.ctr, Lbl.idx]
+
 theorem truthETest_fresh (g : GState) (e : GExpr) (negate : Bool) (label : Lbl) :
     Fresh g (truthETest g e negate label) := by
   unfold truthETest
@@ -334,6 +351,7 @@ theorem genCond_fresh (c : Cond) : ∀ (g : GState) (negate : Bool) (label : Lbl
   | cmpE op e b eLeft => intro g negate label; exact cmpETest_fresh ..
   | truthE e => intro g negate label; exact truthETest_fresh ..
   | cmpR op e y eLeft => intro g negate label; exact cmpRTest_fresh ..
+  | wcmp ne s w => intro g negate label; exact wcmpTest_fresh ..
   | and a b iha ihb =>
     intro g negate label
     cases negate with
